@@ -3,3 +3,59 @@ claim("C03",
   "Every clause of the statement is a postcondition of the real get_position/get_duration, proved for all f32 (cycle, delay, time), all u32 repeat counts, both directions, in bit-precise IEEE-754 (domain split into 6 mode harnesses whose union is total); lemmas show the contract implies mirror symmetry, terminal constancy and agreement with the reported duration. No input bound of any kind.",
   "A1 (fmod abstracted by its IEEE facts), interior linearity stated with 4*EPSILON tolerance against the f32 formula; generated accessors' delegation is checked under C17. Kani/CBMC/cvc5 trusted.",
   "DESIGN.md section 5 C03, section 3 A1")
+KNOTE = "Kani/CBMC/cvc5/CaDiCaL/Kissat and Verus/Z3 are trusted. Machine arithmetic is bit-precise IEEE-754 / two's complement, never mathematical."
+claim("C01",
+  "Verus contracts + loop invariant on the extracted real from_keyframes/get_bounding_frames/value_at (unbounded); Kani contracts on interpolate_value/prepare_frame",
+  "The frame list from_keyframes builds equals, for EVERY keyframe list (any length, any sparse pattern, any easing pattern), the fold the statement describes (synthetic 0% frame with default value + default easing, one frame per defining keyframe with the easing in force, held 100% frame); the index map is the master-to-property map; the O(1) lookup returns consecutive frames that bracket the position (lemma over the `linked` invariant that from_keyframes establishes); value_at = interpolate(lookup(clamp t)); interpolate_value = start.lerp(end, START easing((t-t0)/(t1-t0))) for all positions (Kani, recording probe types). prepare_frame's index is proved bracketing for <=4 master keyframes (bounded).",
+  "A2 (f32 order axioms, each cross-checked by a Kani harness over all bit patterns), A3, V-R1 (from_keyframes taken at &Vec, the derive macro's call shape), pure value function; interpolate_value enters Verus as an uninterpreted function. " + KNOTE,
+  "DESIGN.md section 5 C01")
+claim("C02",
+  "Kani contracts on TimeScale::get_position (exact endpoints, hold-at-100%, terminal constancy), interpolate_value, Lerp endpoints, easing endpoints; Verus lookup lemma",
+  "Exact-at-keyframe follows from four machine-checked contracts composed by substitution: interpolate_value = lerp(start,end,easing(frac)); frac is exactly 0 / 1 at the segment ends; every built-in easing maps 0->0, 1->1 exactly; lerp(a,b,0)=a, lerp(a,b,1)=b exactly for every numeric type. Start/end/hold: get_position's contract (NotStarted <=> t<delay; exactly 100% at the end of every forward pass incl. exact cycle multiples; terminal <=> t-delay > cycle*(n+1), then constant), prepare_frame's phase mapping.",
+  "A1 (fmod facts). The composition step is an argument in DESIGN.md, not one harness. " + KNOTE,
+  "DESIGN.md section 5 C02")
+claim("C04",
+  "Kani: representation invariant of MappedTimelineAnimator + set_state contract from a fully symbolic pre-state (induction over histories)",
+  "inv holds after construction and is preserved by advance and set_state from EVERY pre-state satisfying it, so it holds after every history; under inv, set_state leaves current_values bit-identical for every target state, and set_state(current) changes no field at all. Timelines in the map are arbitrary instances of the abstract timeline contract. No depth bound.",
+  "A4' (Duration<->f32 conversions abstracted as monotone functions), abstract timeline contract TL for the map's timelines (generated timelines satisfy it per C08/C09/C10), 3-valued state type (the code uses State only via == and clone). " + KNOTE,
+  "DESIGN.md section 5 C04")
+claim("C05",
+  "Kani: set_state/advance/new transition contracts over the abstract view (current, time-in-state, live pause, start overrides), by induction",
+  "The postcondition of set_state is the documented transition function (same-state identity; resume at the remembered position without re-blending; otherwise time=0 and exactly one start_with on the target from the values held; pause recorded iff leaving an animated state for an un-animated one; discarded on entering an animated state; kept between un-animated states), proved from every pre-state satisfying the invariant; advance adds exactly the elapsed Duration and re-evaluates from absolute time.",
+  "as C04", "DESIGN.md section 5 C05")
+claim("C06",
+  "Kani: advance contract (values are a function of accumulated time) + advance(0) identity",
+  "advance_contract shows current_values after advance = F(current timeline, accumulated time) on its properties and old values elsewhere, with time' = time + from_secs_f32(dt) exactly (integer Duration arithmetic): values depend on the history only through the accumulated Duration. advance(0) is a whole-struct identity.",
+  "as C04; 'within float rounding' for inexact splits is not decided (stated in evidence)", "DESIGN.md section 5 C06")
+claim("C07",
+  "Kani: is_ended contract + stability under advance; TimeScale duration/terminal lemmas; MergedTimeline::duration = max",
+  "is_ended <=> (no timeline || as_secs_f32(time) >= duration()), never under an infinite duration, stable under further advances (monotone time); merged duration = max of components (infinite absorbing); the reported total duration agrees with the terminal test (delay+span exact) and the terminal position is constant.",
+  "as C04 + A1", "DESIGN.md section 5 C07")
+claim("C08",
+  "Verus: from_keyframes/value_at postconditions (no defining keyframe => empty => None); Kani: prepare_frame None iff no keyframes, animator/merged frame clauses",
+  "For every keyframe list: no keyframe defines the property => frames and map empty => value_at returns None for every (t, hint, flag) (unbounded, Verus); no keyframes => prepare_frame returns None; the animator's advance/set_state and MergedTimeline::update leave unanimated properties bit-identical.",
+  "that the generated update assigns a field only on Some is checked under C17's harnesses when built; A5 (&self cannot mutate). " + KNOTE, "DESIGN.md section 5 C08")
+claim("C10",
+  "Verus: get_frame/override_start_value/lookup contracts; Kani: get_position loop-state flags, prepare_frame flag mapping",
+  "The substituted start frame is returned iff enabled && index==0 && present (get_frame, all sizes); override_start_value replaces (not merges) and preserves wf/linked; the enable flag is on exactly for NotStarted and for Active && !repeating && !reversing (prepare_frame against an arbitrary callee result), and the flags mean 'first forward pass' (lemma over get_position's contract).",
+  "A1, A2, A3. " + KNOTE, "DESIGN.md section 5 C10")
+claim("C11",
+  "Kani contract harness on TimelineBuilderArguments::from (sort executed, N<=3 keyframes, symbolic positions)",
+  "For 0..3 keyframes in any insertion order with fully symbolic positions: keyframes come out sorted, boundary_times[i] is keyframe i's position, nothing lost or duplicated, timing reaches the TimeScale. Bounded in the number of keyframes (labelled bounded, not counted as proved); the downstream contracts (C01) take the sorted list, so equal sorted lists give equal timelines.",
+  "bounded: N<=3. " + KNOTE, "DESIGN.md section 5 C11")
+claim("C12",
+  "Kani harnesses on MergedTimeline over arbitrary abstract component timelines (0..3 components)",
+  "update = components applied in order (later wins), start_with reaches each once, delay=min, duration=max, repeat=max (Repeat is a total order), cycle=common-or-None, clone equivalent, single wrap transparent, disjoint components commute. Bounded in the number of components (0..3), components themselves arbitrary.",
+  "bounded: <=3 components; abstract TL. " + KNOTE, "DESIGN.md section 5 C12")
+claim("C13",
+  "Kani per-variant harnesses on Easing::calc (endpoints exact, dispatch == published control points for all x, Back range), known finding for timing-function semantics",
+  "All 29 built-ins: calc(0)==0 and calc(1)==1 exactly; for every f32 x in [0,1] each variant computes the Bezier polynomial of its PUBLISHED control points (table typed from CSS/easings.net, not from easing.rs); Linear is the identity; custom easings are used as given. The timing-function reading (value at horizontal position x) is a recorded known finding. Range of non-Back curves / monotonicity / mirror are not decided.",
+  "lyon_geom polynomial executed. " + KNOTE, "DESIGN.md section 5 C13")
+claim("C14",
+  "Kani per-type harnesses on Lerp (endpoints for all types; betweenness/same-value for 8-bit types over all x), known finding for wide integers",
+  "lerp(a,b,0)==a and lerp(a,b,1)==b exactly, without panic, for all nine integer types (all exactly representable values) and f32/f64; for i8/u8 (thorough tier) betweenness, no panic and lerp(a,a,x)==a for every f32 x in [0,1]. For wide integer types the same-value/betweenness laws are FALSE near the top of the range: recorded known finding with a native witness.",
+  "wider types over all x not decided. " + KNOTE, "DESIGN.md section 5 C14")
+claim("C20",
+  "Kani automatic checks (overflow, panic, NaN, bounds) inside every contract proof over the valid-configuration domain; Verus index arithmetic",
+  "Every contract harness of L-TS runs with overflow/NaN/panic checks on over all (cycle>0 finite, delay finite, any u32 repeat incl. u32::MAX, any finite time): no overflow (after the fix of Times(u32::MAX)), no NaN; positions in [0,1]; index arithmetic of the lookup cannot overflow for any size (Verus); interpolate_value has no 0/0; Back easings finite.",
+  "A1. " + KNOTE, "DESIGN.md section 5 C20")
